@@ -12,990 +12,1140 @@ Definition show_fres (r : fres) : string :=
   end.
 Definition check (rs : list rune) : string := digest (show_fres (format_res rs)).
 Definition full (rs : list rune) : string := show_fres (format_res rs).
-Eval vm_compute in ("<<<M1610>>>" ++ check (runes_of_ascii "
-root packet
-    u 
+Eval vm_compute in ("<<<M1381>>>" ++ check (runes_of_ascii "// top
+options // c0a
+  // c0b
+{ ArrayPrefixLenType
+    // c2
+=
+    // c3
+u32
+    // c4
+; // c5
+FixedStringPadFromLeft // c6a
+  // c6b
+=
+    // c7
+false // c8a
+  // c8b
+; FixedStringPadChar = // c11
+'0'
+    // c12
+; // c13a
+  // c13b
+}
+    // c14
+packet
+    // c15
+Trade {
+    // c17
+repeat // c18a
+  // c18b
+InVenue78 // c19a
+  // c19b
+{ u16 // c21
+tag7 , // c23a
+  // c23b
+repeat
+    // c24
+InLastpx9 // c25a
+  // c25b
+{ // c26
+u8
+    // c27
+pad0
+    // c28
+, // c29
+} , // c31a
+  // c31b
+int64
+    // c32
+Tail , repeat // c35a
+  // c35b
+InQty37 { char[ 2 // c39a
+  // c39b
+]
+    // c40
+OrderId // c41
+, zchar[
+    // c43
+6
+    // c44
+]
+    // c45
+lastPx // c46
+, // c47
+int64 // c48
+Qty // c49a
+  // c49b
+, } , // c52a
+  // c52b
+uint8 // c53a
+  // c53b
+Side2 // c54a
+  // c54b
+, // c55a
+  // c55b
+} // c56a
+  // c56b
+,
+    // c57
+} // c58
+packet // c59
+Logon // c60
 {
-    match crc
+    // c61
+repeat string // c63a
+  // c63b
+venue // c64a
+  // c64b
+, @rightPad
+    // c66
+( // c67a
+  // c67b
+'\x00'
+    // c68
+) // c69
+char[ 3
+    // c71
+] sym
+    // c73
+, // c74a
+  // c74b
+zchar[ 9 // c76
+]
+    // c77
+count // c78
+, // c79
+zchar[
+    // c80
+7
+    // c81
+]
+    // c82
+f1
+    // c83
+, Trade
+    // c85
+, } // c87a
+  // c87b
+packet
+    // c88
+Logout
+    // c89
+{ // c90a
+  // c90b
+}
+    // c91
+root // c92a
+  // c92b
+packet // c93a
+  // c93b
+Reject // c94
+{
+    // c95
+int32
+    // c96
+sym // c97a
+  // c97b
+, // c98
+u8 // c99
+Px , u32 // c102
+Tail // c103
+@lengthOf(
+    // c104
+Body // c105
+)
+    // c106
+, // c107a
+  // c107b
+match // c108
+Px as Body { // c112a
+  // c112b
+184 // c113
+: // c114
+Trade ,
+    // c116
+173 : // c118
+Logon ,
+    // c120
+12 : Logout , // c124a
+  // c124b
+} ,
+    // c126
+u32 // c127
+tag7 @calculatedFrom( // c129
+""CRC32""
+    // c130
+) // c131a
+  // c131b
+,
+    // c132
+} ")).
+Eval vm_compute in ("<<<M1799>>>" ++ check (runes_of_ascii "options 
+{
+StringPrefixLenType
+
+    = 
+u16	; 
+ArrayPrefixLenType
+    =
+
+u16 ;
+}	packet
+SampleBinary {	uint16 MsgType `" ++ [28040; 24687; 31867; 22411]%N ++ runes_of_ascii "` ,
+u16 BodyLenght
+@lengthOf(
+	Body  )
+	`" ++ [28040; 24687; 20307; 38271; 24230]%N ++ runes_of_ascii "`
+	, match
+    MsgType
+
 as
-leftPad 
-{ [00]: 	 //
-	o
+Body{1
+    :Logon
+	, 
+2  :	Logout  ,
+
+3
+
+    :
+	Heartbeat  ,  4 :RiskControlRequest ,5 
+:
+
+    RiskControlResponse
+
+,  }
+    ,  @calculatedFrom(""CRC32""
+    )u32
+Ckecksum 
+`" ++ [26657; 39564; 21644]%N ++ runes_of_ascii "`,
+
+}	packet
+Logon
+	{ @leftPad 
+('0' 
+)
+
+    char[ 
+10
+
+    ]UserName
+`" ++ [29992; 25143; 21517]%N ++ runes_of_ascii "` ,
+string 
+Password
+`" ++ [23494; 30721]%N ++ runes_of_ascii "` ,
+uint64
+    ClientId
+`" ++ [23458; 25143; 31471]%N ++ runes_of_ascii "ID`
+,
+
+    u16
+
+    HeartbeatInterval `" ++ [24515; 36339; 38388; 38548]%N ++ runes_of_ascii "`
+
+    ,}  packet	Logout
+{ @rightPad
+    ('0')char[10 ]UserName  `" ++ [29992; 25143; 21517]%N ++ runes_of_ascii "`
+	, 
+uint64 ClientId
+`" ++ [23458; 25143; 31471]%N ++ runes_of_ascii "ID` 
+, 
+} packet
+	Heartbeat{ 
+}
+packet
+    RiskControlRequest
+	{ 
+string UniqueOrderId`" ++ [21807; 19968; 35746; 21333; 21495]%N ++ runes_of_ascii "`	,char[  16 
+]ClOrdID 
+`" ++ [23458; 25143; 35746; 21333; 21495]%N ++ runes_of_ascii "`
+
+, char[
+    3  ]
+	MarketID
+    `" ++ [24066; 22330]%N ++ runes_of_ascii "id`
+,
+
+    char[ 12
+]
+
+SecurityID
+    `" ++ [35777; 21048; 20195; 30721]%N ++ runes_of_ascii "` , char
+
+Side`" ++ [20080; 21334; 26041; 21521]%N ++ runes_of_ascii "`,  char OrderType
+    `" ++ [35746; 21333; 31867; 22411]%N ++ runes_of_ascii "`,u64  Price`" ++ [20215; 26684]%N ++ runes_of_ascii "` ,u32
+    Qty `" ++ [25968; 37327]%N ++ runes_of_ascii "`, repeat
+string 
+ExtraInfo`" ++ [38468; 21152; 20449; 24687]%N ++ runes_of_ascii "`
+    ,
+
+repeat SubOrder { 
+char[ 16]
+
+ClOrdID `" ++ [23376; 35746; 21333; 21495]%N ++ runes_of_ascii "`
+
+    , u64
+
+Price 
+`" ++ [23376; 35746; 21333; 20215; 26684]%N ++ runes_of_ascii "`
 
 ,
-42 
-	/// triple
-  	:  
-      // trailing space 
-  //x
-crc[ ""a	b""
-,	""CRC32"" 
-,	""a\""b""
-,	""\n""
-, 0 
-,255
-    ]
-:// packet A { u8 x, }
-	zchar
-	,
 
-// " ++ [128512]%N ++ runes_of_ascii " emoji
-  //
-  }  //	t
+u32
+Qty
+`" ++ [23376; 35746; 21333; 25968; 37327]%N ++ runes_of_ascii "`  ,
 
-,
+    } ,}	packet
+RiskControlResponse {
 
     string
-
-    stringy @lengthOf(  matchKey)	, int,@tag(1
-
-    )repeat
-    zchar[
-
-4294967296 ]  roots
-
-, @leftPad
-	( 
-'\x00'
-
-    ) x 
-//x
-@lengthOf(crc
-	)
-,	}packet// c
-		repeatCount
-
-    { 
-zchar[ 255
-
-] f32a
-	@calculatedFrom(
-
-""x y"" ) ,@tag(
-
-    255 
-)
-char[]asx@calculatedFrom(
-    """ ++ [28040; 24687]%N ++ runes_of_ascii """  
-      // " ++ [27880; 37322]%N ++ runes_of_ascii "
-)
-    ,	leftPad	{ 
-	    /// triple
-	// a // b
-  repeat	int
-
-u8x
-
-    ,
-    i64	trueish
-	@lengthOf(i8i8
-) 
-`" ++ [28040; 24687; 31867; 22411]%N ++ runes_of_ascii "` 
-// a // b
-
+UniqueOrderId
+    `" ++ [21807; 19968; 35746; 21333; 21495]%N ++ runes_of_ascii "` , i32 
+Status`" ++ [29366; 24577]%N ++ runes_of_ascii "`,
+	string  Msg 
+`" ++ [32467; 26524; 20449; 24687]%N ++ runes_of_ascii "` 
 ,
-    repeat
-	int64 	 //	t
-  pack
 
-    , 
-}
-, match 
-float	as o	{ //
-		65535:
-    Pad
+    repeat  Detail 
+,
+	}  packet
+Detail{
+	string 
+RuleName `" ++ [35268; 21017; 21517; 31216]%N ++ runes_of_ascii "` ,  u16
 
+    Code
+
+    `" ++ [21407; 22240; 20195; 30721]%N ++ runes_of_ascii "`  ,}
+")).
+Eval vm_compute in ("<<<M311>>>" ++ check (runes_of_ascii "packet falsey  {
+    /// triple
+    string i8i8 @calculatedFrom(
+""a\\""
+    )	, // " ++ [128512]%N ++ runes_of_ascii " emoji
+@calculatedFrom(
+    """ ++ [233]%N ++ runes_of_ascii "t" ++ [233]%N ++ runes_of_ascii """ ) repeat a1
+,
+    } options { falsey =0
+// packet A { u8 x, }
+// c
+Foo
+    = //x
+""\" ++ [233]%N ++ runes_of_ascii """ ; } root packet
+packetx { metadata @lengthOf(
+asx ),
+// @lengthOf(
+//	t
+char[] BodyLength @calculatedFrom(
+    """ ++ [233]%N ++ runes_of_ascii "t" ++ [233]%N ++ runes_of_ascii """
+)`" ++ [233]%N ++ runes_of_ascii "`	, metadata{
+    repeat rootA i64_
+    `a\`
+    // " ++ [128512]%N ++ runes_of_ascii " emoji
+    , u8x
+// a // b
+// `tick` ""quote"" 'q'
+chars
+    ,
+repeat int64 string_ // " ++ [27880; 37322]%N ++ runes_of_ascii "
+`{ , }` // trailing space 
+,} , @tag( 4294967296
+    // " ++ [27880; 37322]%N ++ runes_of_ascii "
+    )
+u64
+tag  @lengthOf( pack ) , // `tick` ""quote"" 'q'
+u128 Z9_ ``
+    , repeat
+// @lengthOf(
+// `tick` ""quote"" 'q'
+i16 lengthOf , @calculatedFrom( ""`tick`"" )
+// `tick` ""quote"" 'q'
+// @lengthOf(
+repeat// a // b
+char[ //
+00 ]
+    //	t
+    Packet `it's` , uint16 Pad, @calculatedFrom( ""a\\"" )match int
+//
+// " ++ [27880; 37322]%N ++ runes_of_ascii "
+as
+    pack
+{ 00 : u , [ ""x y"" ]:asx  , """ ++ [28040; 24687]%N ++ runes_of_ascii """
+    :
+string_
+    // trailing space 
+    1 : Pad , },	@calculatedFrom( // " ++ [27880; 37322]%N ++ runes_of_ascii "
+""" ++ [233]%N ++ runes_of_ascii "t" ++ [233]%N ++ runes_of_ascii """ ) roots @calculatedFrom( ""// no comment"" // @lengthOf(
+) ,	}
+    packet zchar  { // 50% %s
+@leftPad	( '0' ) T `line1
+line2`
+    ,
+    }
+")).
+Eval vm_compute in ("<<<M1351>>>" ++ check (runes_of_ascii "  options
+
+    {
+LittleEndian
+=
+false;
+FixedStringPadChar=  ' ' ;	} packet
+
+Fill	{
+	InFlags6
+    {
+
+repeat
+    u64 
+count
+	,}
+, char[8
+]  price
+,
+	repeat
+    char[
+    2] 
+lastPx ,
+	char[] count,}packet
+Quote
+    {  char[]
+Qty
     ,
 
-[
-""" ++ [128512]%N ++ runes_of_ascii """ , 
-""" ++ [28040; 24687]%N ++ runes_of_ascii """
+int32 sym ,zchar[
+	9
+]
 
-    , 0123456789
+    Flags ,
+    int8
+	tag7 ,
+char[7
+]
+
+    count,
+} 
+packet
+Cancel  {
+
+string Acct
+
+    ,  @rightPad
+('\x00'
+	)char[
+
+2
+    ]  Note ,
+
+zchar[
+
+5
+
+]
+Side2,	} 
+packet  Trade
+
+    { repeat 
+Quote
+    ,
+    Fill 
+,  repeat
+    i64
+    Side2
+    ,	uint16 
+Tail 
+,
+zchar[7
+    ]
+    OrderId,}
+
+    root  packet
+	Party 
+{ repeat
+    InLastpx79
+
+    {
+
+    char[
+
+12 ] 
+Px, int8 
+Tail ,  }
+,f32 
+count  ,  repeat 
+u8
+Note,Trade	,f64
+    venue 
+,@rightPad
+
+    (
+'\x00')char[
+    11
+	]
+tag7	,
+u16
+Px
+,
+    u32  Side2 @lengthOf(
+
+Body
+	)
+
+    , match 
+Px as
+Body
+
+{[ 48 , 188
+    ]
+	:Fill	, 190:Trade	,  160
+	:Quote
+
+    , 85
+
+    :
+
+    Cancel
+,
+	}
+	, }
+
+")).
+Eval vm_compute in ("<<<M1374>>>" ++ check (runes_of_ascii "// top
+options // c0a
+  // c0b
+{ // c1a
+  // c1b
+StringPrefixLenType = // c3
+u16 // c4a
+  // c4b
+; // c5
+ArrayPrefixLenType // c6
+= u64
+    // c8
+; }
+    // c10
+packet // c11
+Order { // c13a
+  // c13b
+float64 Ref // c15a
+  // c15b
+, // c16
+repeat // c17a
+  // c17b
+i32 lastPx // c19
+,
+    // c20
+}
+    // c21
+packet Fill
+    // c23
+{
+    // c24
+zchar[ 9 // c26
+] // c27a
+  // c27b
+Ref
+    // c28
+, // c29
+zchar[ // c30a
+  // c30b
+4 ]
+    // c32
+Px // c33
+, // c34
+Order // c35a
+  // c35b
+, // c36
+int8 // c37
+count // c38
+, // c39a
+  // c39b
+}
+    // c40
+packet // c41a
+  // c41b
+Cancel { // c43
+i16 Side2 // c45
+, // c46
+Order // c47a
+  // c47b
+, // c48
+} root packet // c51
+Party // c52
+{ float64 // c54
+Px , // c56
+zchar[
+    // c57
+1
+    // c58
+] // c59
+clOrdID // c60
+, // c61
+} ")).
+Eval vm_compute in ("<<<M1398>>>" ++ check (runes_of_ascii "options { // c1
+LittleEndian
+    // c2
+=
+    // c3
+true // c4a
+  // c4b
+; // c5
+} // c6a
+  // c6b
+packet Sub // c8
+{ // c9
+u8 a // c11
+,
+    // c12
+u16 SubSum // c14
+@calculatedFrom( // c15a
+  // c15b
+""CRC16""
+    // c16
+) // c17a
+  // c17b
+,
+    // c18
+} // c19
+root // c20a
+  // c20b
+packet // c21a
+  // c21b
+Frame
+    // c22
+{
+    // c23
+u16 MsgType // c25a
+  // c25b
+, u16 // c27
+BodyLen @lengthOf( Body ) // c31a
+  // c31b
+, Sub Body // c34a
+  // c34b
+, // c35a
+  // c35b
+string // c36
+note
+    // c37
+, // c38a
+  // c38b
+u16
+    // c39
+Checksum
+    // c40
+@calculatedFrom( // c41a
+  // c41b
+""CRC16"" // c42a
+  // c42b
+) // c43
+, u8 // c45
+tail
+    // c46
+,
+    // c47
+} // c48
+")).
+Eval vm_compute in ("<<<M1818>>>" ++ check (runes_of_ascii "
+
+  // top
+MetaData  
+      // c0
+		msg_type 
+  // c1
+		{
+    // c2
+  int32
+    // c3
+
+  As
+    // c4
+    `crlf
+line`
+// c5
+  ,
+// c6
+
+MetaDataX 
+
+// c7
+	x  
+      // c8
+	  `a\` 
+	// c9
+, 
+        // c10
+  int8  
+  // c11
+	_x
+// c12
+		,  
+      // c13
+
+char[] 
+	// c14
+    As 
+    // c15
+      `u8 x,`
+// c16
+      ,
+        // c17
+	  zchar[  
+      // c18
+3
+    // c19
 
 ] 
-//x
-
-  // @lengthOf(
-	:i8i8 , 7:	asx
-    00 :
-	stringy },
-	@calculatedFrom(
-
-    """ ++ [233]%N ++ runes_of_ascii "t" ++ [233]%N ++ runes_of_ascii """ )
-    f32a
-// packet A { u8 x, }
-	  // trailing space 
-	u  , 
-repeat
-
-msg_type`" ++ [233]%N ++ runes_of_ascii "`,
-
-    repeat zchar[
-42
-
-    ] crc ,
-
-    uint64 
-    // " ++ [27880; 37322]%N ++ runes_of_ascii "
-    lengthOf
-,  repeat As``
-, zchar[	007
-]tag`tab	here`,
-	}
-	root
-
-    packet  charz
-{
-	string	msg_type, @calculatedFrom( 
-""""
-
-) 
-repeat  //	t
-	string
-
-tag `tab	here`  , repeat calculatedFrom  , repeat
-	Foo ,
-uint64
-    Foo  @lengthOf(  packetx  ),
-	@rightPad( )
-	match
-    falsey
-	as
-	calculatedFrom	{	[ 0
-
-    ,
-    10
-
-, ""a\""b""
-
-]:metadata	, } 
-, @calculatedFrom(
-""\" ++ [233]%N ++ runes_of_ascii """ ) i64 As ``
-
-    , @lengthOf(
-
-rootA)
-	u32
-
-Logon 	 // c
-  @lengthOf(a1
-	)
-	,
-
-    @calculatedFrom(
-
-    """"
-)@leftPad (
-	' '	)
-
-uint16
-    i8i8 @calculatedFrom(
-""// no comment""
-
-    ) ,
-}
-root
-    packet	// trailing space 
-    uint8x {
-	repeat
-
-f32
-chars
-    `tab	here`
-,
-
-}MetaData calculatedFrom  { 
-
-//
-    	// `tick` ""quote"" 'q'
-	  metadata	crc ,
-}")).
-Eval vm_compute in ("<<<M257>>>" ++ check (runes_of_ascii "options
-{
-BodyLength
-=3 ;// " ++ [128512]%N ++ runes_of_ascii " emoji
-T = ""packet""
-// @lengthOf(
-// trailing space 
-;
-// c
-// trailing space 
-crc = true ;
-falsey= '\x00'/// triple
-;
-} root packet A
-    {@leftPad (
-'0' )	char[
-65535 ] Header  `" ++ [233]%N ++ runes_of_ascii "` ,
-@rightPad( '0' ) //
-a1 @lengthOf( msg_type ) , @lengthOf( rootA )
-    match
-_x as //x
-stringy {""CRC32"" : chars, 3// `tick` ""quote"" 'q'
-:float , 255	:	asx // `tick` ""quote"" 'q'
-, 10  : tag ,//
-} ,
-    @calculatedFrom(
-    """ ++ [128512]%N ++ runes_of_ascii """	) u32 u8x`crlf
-line` , repeat char[]	asx `a\` , @rightPad ( '0'	)match f32a  as Packet
-    { [ 255 , ""CRC32"" , 007
-, ""1"",""packet"" , 00 ,
-    4294967296 ]	: calculatedFrom , ""packet"" :
-    falsey, ""a\""b"": body , 7// a // b
-: Packet // " ++ [128512]%N ++ runes_of_ascii " emoji
-0123456789 :	i64_ ,
-    // a // b
-    [4294967296 , 0123456789 ]  : // `tick` ""quote"" 'q'
-options1	} ,crc /// triple
-@lengthOf(	Foo
-    )
-    ,
-@calculatedFrom( ""{,}"")@lengthOf(metadata ) @lengthOf( i8i8
-)int64 options1 @calculatedFrom(""CRC32"" )
-    `line1
-line2` , // @lengthOf(
-} packet a1 // `tick` ""quote"" 'q'
-{ match lengthOf//
-as x_y_z
-{ ""it's"" :matchKey
-//
-// @lengthOf(
-, 10 :
-Packet , [ //x
-""abc""
-    ]// a // b
-: A 10 //x
-: metadata
-    ,
-    } ,
-}MetaData
-    body { char string_, char[]
-x, len Pad , string
-    leftPad , } // trailing space ")).
-Eval vm_compute in ("<<<M1462>>>" ++ check (runes_of_ascii "  packet
-
-pack { 
-@lengthOf( 
-Foo 
-    // c
-	)
-
-    asx 
-@lengthOf(
-
-_x )/// triple
-	,
-    u8	x_y_z `two words` , repeat zchar[
-    0]	roots
-
-`
-` 
-
-// `tick` ""quote"" 'q'
-, lengthOf	@calculatedFrom(
-""abc""  ) ,
-	@tag(
-
-3)
-
-@rightPad
-
-    ( ' '
-	)
-
-@calculatedFrom( ""1""
-    //x
-    // " ++ [27880; 37322]%N ++ runes_of_ascii "
-	)repeat
-    uint64
-i64_  // trailing space 
-
-	`say ""hi""`	// @lengthOf(
-
-	,@tag(007
-
-) 
-match	roots 
-as
-
-float
-
-{  ""a	b""
-
-:
-lengthOf ,[1
-    ,	// @lengthOf(
-  ""\n"" , ""a\""b"" ,
-
-""\" ++ [233]%N ++ runes_of_ascii """ ,
-
-""1""  , 42
-]
-    :	msg_type
-,""" ++ [128512]%N ++ runes_of_ascii """:  Foo}
-,  T//x
-
-{ match 
-Header
-
-as  trueish
-    {
-
-[
-    // `tick` ""quote"" 'q'
-    // @lengthOf(
-
-  0  ,
-	3 // @lengthOf(
-, ""{,}""  , ""1""
-,
-
-    00
-,
-
-0123456789,
-	""// no comment""] :
-
-    As, }  ,  } ,
-repeat
-    char[ 10]o
-	`
-`  ,  @calculatedFrom( 
-    //
-""`tick`""//x
-    ) repeat
-    crc  {
-    repeatCount o
-,u8x
-	As ,
-} , } packet
-pack  {@calculatedFrom( 
-""" ++ [233]%N ++ runes_of_ascii "t" ++ [233]%N ++ runes_of_ascii """
-	)
-
-u32
-f32a
-,  }
-MetaData 
-float
-
-{
-u32 options1 , } 
-packet f32a
-    {	} ")).
-Eval vm_compute in ("<<<M1373>>>" ++ check (runes_of_ascii "  options{	FixedStringPadFromLeft  =
-    true
-    ; FixedStringPadChar
-
-=  '0'
-    ;	} packet
-	Leg {	repeat InSym93
-    {
-
-zchar[
-3 ]
-Acct, string
-Side2,
-    i32	Flags,	f32  Note
-	, 
-i32
-	msgKind 
-,  }
-    ,	f64 Note
-    ,
-    uint16
-
-Px ,
-
-}
-packet
-	Quote
-
-{  zchar[	2  ]
-OrderId
-
-    ,}
-
-    packet Ack
-
-{
-repeat
-    string
-    lastPx  ,
-zchar[
-
-4  ]  price,
-
-uint32
-
-OrderId,Quote  , int8  Acct
-    ,
-} packet
-Fill
-{repeat
-	Leg, 
-@rightPad
-	(	'0' 
-)  char[11 ]Note  ,	f64
-
-Px  ,@rightPad ( 
-'\x00'	)  char[5 ] Flags
-    ,
-zchar[	9
-]
-x  , string 
-msgKind , }	root packet
-	Order{ 
-Leg
-
-, repeat
-    Ack,
-	@rightPad (
-	'\x00'	)	char[ 3 ]Side2
-
-    ,
-	repeat 
-char[ 1]  seqNo  ,
-
-u16 clOrdID, match
-
-    clOrdID 
-as
-Body{198:Leg
-    ,
-	23
-
-: Quote,
-	13 
-:Ack ,	159 
-:  Fill
-
-,
-	} , 
-u32
-venue
-    @calculatedFrom(
-
-""CRC32""
-    ) ,
-}
-")).
-Eval vm_compute in ("<<<M1629>>>" ++ check (runes_of_ascii "options
-
-    {
-StringPrefixLenType  =
-u16	;
-	ArrayPrefixLenType=
-	u32
-;
-	FixedStringPadFromLeft =
-    true  ; FixedStringPadChar
-
-=
-
-'0'
-    ;  }
-
-    packet
-	Cancel
-    {}
-	packet 
-Party {
-
-    }	packet Logon
-    {
-
+    // c20
+  uint8x 
+    // c21
+    , 
+
+    // c22
+	As 
+      // c23
+    Foo 
+// c24
+    	,
+
+    // c25
 } 
-packet
-    Ack{ }
-	packet 
-Logout {repeat
 
-InSym87
+// c26
+	  root
+// c27
+  packet
+// c28
+repeatCount
+        // c29
+	{ 
+      // c30
+	}
 
-    {
-
-InClordid94{	string	clOrdID ,}  , string Px,	i16
-
-    Qty ,
-repeat
-InCount71
-{
-
-    repeat Cancel
-, 
-uint16
-
-    Tail
-
-    , char[
-2 ]
-    x , repeat
-    string
-    Ref ,
-
-    }, Cancel
-,
-} , 
-}
-	root packet Order
-{
-
-    repeat string
-    tag7 ,
-    @leftPad	( ' '
-
-)
-char[
-    3
-
-]
-    Px
-,
-	u8
-
-    Qty  , match
-
-Qty
-	as  Body
-    {
-[ 28
-
-    ,
-62] :
-Logon,
-
-    148 :Ack  , 
-88: 
-Party  , 184 :
-    Cancel	, }
-, 
-u16
-
-    Note	@calculatedFrom( ""CR\
-C32""	)
-	, }")).
-Eval vm_compute in ("<<<M192>>>" ++ check (runes_of_ascii "// trailing space 
-options { f32a=
-false;	stringy=	true
-;
-u=  ""\" ++ [233]%N ++ runes_of_ascii """  ;
-    stringy = false;
-} packet options1 // " ++ [27880; 37322]%N ++ runes_of_ascii "
-{
-} MetaData
-packetx { f32 uint8x  ,  } root packet zchar {
-@tag( 4294967296
-) @lengthOf(a1
-)
-i8
-_x
-`it's` ,//x
-char[]	o , body
-    ,
-zchar[ 65535] msg_type
-`crlf
-line` , repeat
-    BodyLength{ repeat char[ 65535
-    ] stringy,
-},
-@calculatedFrom( """ ++ [128512]%N ++ runes_of_ascii """
-) @tag( 10
-    // a // b
-    ) repeat f32
-lengthOf`line1
-line2` , repeat  u {
-    uint32 Z9_, //
-repeat body
-`
-` , }  , @tag( 4294967296
-) i64_ @lengthOf( tag
+// c31")).
+Eval vm_compute in ("<<<M1745>>>" ++ check (runes_of_ascii "packet int {
+    /// triple
+    lengthOf,// " ++ [27880; 37322]%N ++ runes_of_ascii "
+    match x_y_z as trueish {
+        [""it's"", 0123456789] : i64_,
+    },
+    @tag(255)
+    @leftPad('0')
+    options1 @calculatedFrom(""1"") `
+    `,// @lengthOf(
+    @leftPad('\x00')
     // packet A { u8 x, }
-    ), @lengthOf(//	t
-float) @lengthOf(
-    // " ++ [128512]%N ++ runes_of_ascii " emoji
-    packetx	) @calculatedFrom( """ ++ [128512]%N ++ runes_of_ascii """
-)	repeat x_y_z u  ,@tag( 65535 )u8
-A	,} //")).
-Eval vm_compute in ("<<<M78>>>" ++ check (runes_of_ascii "options {
-Header	=u32; } options {
-i8i8	=
-    f64 ; body
-    =  zchar[
-// " ++ [128512]%N ++ runes_of_ascii " emoji
-/// triple
-00//
-] ; }
-    //
-    MetaData BodyLength  { // trailing space 
-}// " ++ [27880; 37322]%N ++ runes_of_ascii "
-options
-{ Logon= u64 As =
-    true i64_
-= '\x00' ;
-} root packet asx {
-@tag(
-// `tick` ""quote"" 'q'
-//	t
-4294967296
-    )
-    roots @lengthOf( A ) ,repeat uint8 u128
-    , int32 i64_  ,
-    u8 u `` ,
-@lengthOf(
-// c
-// c
-len ) uint64
-    //x
-    matchKey ,	match rootA
-    as stringy {
-1 : string_, 7 : charz , 255 : u128, [ // trailing space 
-0
-,0123456789 ,1,007  ]: len
-    , 10
-    :trueish } ,
-@rightPad	()
-    char[ 7] int //
-@lengthOf(
-x ) `two words`
-, }")).
-Eval vm_compute in ("<<<M1905>>>" ++ check (runes_of_ascii "options {
-    LittleEndian = false;
-    ArrayPrefixLenType = u8;
-    FixedStringPadFromLeft = true;
-    FixedStringPadChar = '0';
-}
-
-packet Heartbeat {
-    string lastPx,
-    uint8 Qty,
-    i64 Acct,
-    char[4] Ref,
-}
-
-packet Fill {
-    uint8 Ref,
-    Heartbeat,
-    f32 OrderId,
-    repeat f32 x,
-}
-
-root packet Order {
-    zchar[2] OrderId,
-    zchar[2] Acct,
-    zchar[1] Note,
-    zchar[9] Qty,
-    string price,
-    string tag7,
-    u32 x,
-    match x as Body {
-        123 : Fill,
-        112 : Heartbeat,
-    },
-    u32 seqNo @calculatedFrom(""CR\
-    C32""),
+    len @lengthOf(rootA),
+    i64_ packetx,
+    @tag(42)
+    int32 trueish,
+    i8 options1 `two words`,
+    @leftPad('0')
+    char[1] calculatedFrom `tab	here`,
+    @lengthOf(o)
+    @tag(007)
+    u8 _x @calculatedFrom(""`tick`""),
+    repeatCount @lengthOf(MetaDataX),/// triple
 }")).
-Eval vm_compute in ("<<<M1352>>>" ++ check (runes_of_ascii "options {
-    ArrayPrefixLenType = u64;
-    FixedStringPadFromLeft = true;
-    FixedStringPadChar = '0';
-}
-packet Quote {
-}
-packet Ack {
-    repeat InNote66 {
-        u8 pad0,
-    },
-}
-packet Reject {
-}
-root packet Order {
-    Quote,
-    repeat Reject,
-    string venue,
-    string seqNo,
-    uint32 Ref,
-    u16 lastPx,
-    u32 clOrdID @lengthOf(Body),
-    match lastPx as Body {
-        190 : Reject,
-        186 : Quote,
-        22 : Ack,
-    },
-    u16 Flags @calculatedFrom(""CR\
-C32""),
-}
-")).
-Eval vm_compute in ("<<<M253>>>" ++ check (runes_of_ascii "packet
-u	{ @lengthOf( //
-zchar )match Header as len  {
-    42// trailing space 
-:
-    x_y_z ,
-    // " ++ [27880; 37322]%N ++ runes_of_ascii "
-    },rootA	`
-`	,	match u8x as pack {[ 1 , """" ]
-    : float , ""abc""  :
-string_ ,42 :
-    i64_/// triple
+Eval vm_compute in ("<<<M354>>>" ++ check (runes_of_ascii "MetaData o { charz calculatedFrom`
+` // a // b
+, float64 rootA , } packet A
+{  asx
+    @lengthOf(
+packetx
+)
+`u8 x,` , @lengthOf(
+packetx
+    ) a1 {  int32 matchKey @lengthOf( asx ) `" ++ [28040; 24687; 31867; 22411]%N ++ runes_of_ascii "` , Header `{ , }` ,	repeat f64 falsey `100% of %d`// 50% %s
 ,
-1:zchar
-// trailing space 
-// " ++ [128512]%N ++ runes_of_ascii " emoji
-} ,char[ 3 ] int ,
-match options1 as u128 { [ ""`tick`"" ] : u
-// packet A { u8 x, }
-/// triple
-, } ,	}
-options {	len	= //	t
-i8 // " ++ [27880; 37322]%N ++ runes_of_ascii "
-; zchar = true; } packet T{char[ 42 ] asx@calculatedFrom(""CRC32"" ) , }
-")).
-Eval vm_compute in ("<<<M1604>>>" ++ check (runes_of_ascii "
-
-  packet As	{
-
-    @leftPad
-(
-	)
-char[ 0  ] Logon
-
-    ,  char[ 0
-] Z9_@calculatedFrom( ""abc"" 
-    // c
-),@tag(	4294967296 
-)	i64
-
-matchKey
-
-    @calculatedFrom(
-
-""// no comment"" 	 //
-    	) `two words`,  i16  A
-
-    , }	// " ++ [27880; 37322]%N ++ runes_of_ascii "
-	packet
-T{
-zchar[
-3 ]tag// packet A { u8 x, }
-  @lengthOf(chars)
-
-,  }
-packet// " ++ [128512]%N ++ runes_of_ascii " emoji
-
-BodyLength {
-calculatedFrom @lengthOf(
-	body)
-`
-` 
-,
-
-    } 	 // a // b
- 
-")).
-Eval vm_compute in ("<<<M114>>>" ++ check (runes_of_ascii "packet
-a1 {@calculatedFrom(""`tick`"" ) uint32 charz	`crlf
-line` ,
-// c
-//x
-a1 `tab	here`, }
-    options
-    {
-// " ++ [27880; 37322]%N ++ runes_of_ascii "
-// " ++ [128512]%N ++ runes_of_ascii " emoji
-stringy =
-// c
-// a // b
-255 ;
-    metadata =	4294967296 pack
-    = /// triple
-string	; crc= string
-    ; }  root  packet
-crc	{ @tag(  42  )
-@calculatedFrom( ""abc""  )
-@rightPad ( '0'
-) u128 u8x
-/// triple
-//x
-,@lengthOf(len) uint16 int, }
-")).
-Eval vm_compute in ("<<<M1596>>>" ++ check (runes_of_ascii "
-
-  root packet
-
-chars	{ string
-    T
-
-`say ""hi""` 
-,@tag(1
-
-    ) body
-
-    {	repeat
-	o
-
-{ f64 
-Packet	@calculatedFrom( ""a\\""
-    ) , 
-},} ,
-    } packet
-
-pack 
-// @lengthOf(
-	// a // b
-  	{
-    @tag(
-
-4294967296 	 // `tick` ""quote"" 'q'
-
-  )
+}  ,
 repeat
-
-char[]	Logon 
-	// trailing space 
-	,
-	repeat
-	BodyLength
-
-len  , 
-        // c
+    u32// `tick` ""quote"" 'q'
+lengthOf , u64 Z9_ ,
+    /// triple
+    @lengthOf( _x ) packetx{_x , /// triple
 }
+// " ++ [27880; 37322]%N ++ runes_of_ascii "
+//	t
+, zchar[ 1]
+a1 @lengthOf( chars
+)	,	u64	crc	`100% of %d` , char[65535 ]
+    chars
+, }
+    root packet int { }
 
 ")).
-Eval vm_compute in ("<<<M377>>>" ++ check (runes_of_ascii "packet crc {match  trueish
-    as
-len {
-42 : uint8x,// " ++ [128512]%N ++ runes_of_ascii " emoji
-""1"" :asx ,	3
-: body [ ""1"" , 0123456789]: u ""packet"" : o , } , } MetaData tag
-{
-    string
-o `line1
+Eval vm_compute in ("<<<M1486>>>" ++ check (runes_of_ascii "// top
+options {
+    // c1
+}
+
+// c2
+MetaData packetx {
+    // c5
+    int falsey `two words`,
+    // c9
+    int32 trueish,
+    // c12
+    char[] u8x,
+    // c15
+    A x `// not a comment`,
+    // c19
+}
+
+// c20
+root packet i8i8 {
+    // c24
+    @lengthOf(repeatCount)
+    // c27
+    @tag(1)
+    // c30
+    @calculatedFrom(""a	b"")
+    // c33
+    string stringy @calculatedFrom(""\n"") `line1
+        line2`,
+    // c40
+    pack `100% of %d`,
+    // c43
+}
+// c44")).
+Eval vm_compute in ("<<<M346>>>" ++ check (runes_of_ascii "MetaData body { //x
+asx As , Foo calculatedFrom`` ,
+    packetx
+pack `{ , }`, // packet A { u8 x, }
+u8x  falsey`say ""hi""` , float32
+float
+    `line1
+line2`, char[] u
+`it's`
+, } packet
+    // a // b
+    asx{uint32 pack
+@calculatedFrom(
+    ""CRC32""
+    ) `line1
+line2` ,char[ 65535 /// triple
+] roots // @lengthOf(
+,Z9_
+zchar // trailing space 
+, repeat uint64 // 50% %s
+float `line1
 line2`
 ,
-char[] //
-Header `{ , }`// c
-,  uint8x Z9_, } MetaData
-tag
-{ i8 len , }
-    options //x
-{
-// `tick` ""quote"" 'q'
-/// triple
-x= 10;
+} root packet options1 { }
+")).
+Eval vm_compute in ("<<<M129>>>" ++ check (runes_of_ascii "packet int  { uint16 BodyLength
+, zchar[ 255] charz// @lengthOf(
+`100% of %d` ,	Logon@lengthOf(	MetaDataX ), }
+packet// " ++ [27880; 37322]%N ++ runes_of_ascii "
+a1
+    {match pack as // `tick` ""quote"" 'q'
+msg_type{10
+    :	float ,
+""" ++ [233]%N ++ runes_of_ascii "t" ++ [233]%N ++ runes_of_ascii """ :
+charz  , 4294967296 : Foo , """ ++ [233]%N ++ runes_of_ascii "t" ++ [233]%N ++ runes_of_ascii """ : u128 , } , repeat Pad{	repeat Foo
+    //x
+    { uint64
+    // `tick` ""quote"" 'q'
+    Header,repeat roots rootA `say ""hi""`
+, } ,} , } packet	Header {
 }
 ")).
-Eval vm_compute in ("<<<M1578>>>" ++ check (runes_of_ascii "
-packet MDSnapshotZZ {  u8
-
-a, 
-} 
-packet
-
-OrderACK {
-
-    u16 
-b 
-,} packet
-	HTTPServerInfo	{ string s
-
-    ,	}root
-
-packet 
-FIXMsg 
-{u8  KType
-,MDSnapshotZZ ,  repeat
-    OrderACK
-
-    , match
-KType as Body {
-1 
-:HTTPServerInfo ,
-
-    2
-	:
-
-OrderACK	, } ,
+Eval vm_compute in ("<<<M1729>>>" ++ check (runes_of_ascii "options {
+    LittleEndian = true;
+    StringPrefixLenType = u16;
+    ArrayPrefixLenType = u16;
+    FixedStringPadFromLeft = true;
+    FixedStringPadChar = '0';
 }
-")).
-Eval vm_compute in ("<<<M308>>>" ++ check (runes_of_ascii "options { pack// `tick` ""quote"" 'q'
-= 0123456789
+
+packet Leg {
+    u16 Flags,
+    u8 price,
 }
-packet metadata { @leftPad ( ' ' ) stringy
-@lengthOf( _x )
-    , repeat	u8
-int
-    `{ , }` ,
-@leftPad //	t
-('0' ) repeat char msg_type `it's`,
-} MetaData x_y_z { // trailing space 
+
+packet Quote {
+    uint16 count,
+    InNote89 {
+        repeat Leg,
+    },
+}
+
+root packet Ack {
+    char[3] price,
+    u64 sym,
+    zchar[1] Tail,
 }")).
-Eval vm_compute in ("<<<M1808>>>" ++ check (runes_of_ascii "packet Logon {
-    string user,
-}
+Eval vm_compute in ("<<<M333>>>" ++ check (runes_of_ascii "MetaData Pad
+{ } MetaData BodyLength {
+// trailing space 
+// trailing space 
+} root	packet MetaDataX // trailing space 
+{// 50% %s
+@lengthOf( a1
+) match
+    trueish // a // b
+as
+uint8x {[
+""// no comment"" , ""CRC32""
+    ,""" ++ [28040; 24687]%N ++ runes_of_ascii """ ,
+""" ++ [128512]%N ++ runes_of_ascii """, ""// no comment"" ,""abc"" ] :Logon
+    , } , match T as crc {
+    ""\n"":	Z9_
+    , } ,	}
+")).
+Eval vm_compute in ("<<<M48>>>" ++ check (runes_of_ascii "  options
+{ len	= 00
+;
+//	t
+// packet A { u8 x, }
+charz= zchar[ 3 ] //
+; Pad
+=
+255 ;
+falsey
+=""" ++ [28040; 24687]%N ++ runes_of_ascii """ }root packet
+    repeatCount { char[4294967296
+] x_y_z @lengthOf(string_ )
+,@calculatedFrom(
+""packet""
+) @tag(	4294967296 ) float32
+asx @lengthOf(
+    x_y_z ), u64
+    zchar , } 	 ")).
+Eval vm_compute in ("<<<M1716>>>" ++ check (runes_of_ascii "// top
+      root// c0
+packet 	 // c1
+	P // c2a
+  	// c2b
+  {	// c3a
+      // c3b
 
-root packet Frame {
+	u8  // c4a
+  // c4b
+
+s_u8 // c5a
+
+	// c5b
+  ,  repeat
+// c7
+
+u8  // c8a
+// c8b
+		r_u8// c9a
+
+	// c9b
+	,
+    // c10
+u16
+// c11
+b_len 	 // c12
+
+,  // c13a
+    // c13b
+    }
+")).
+Eval vm_compute in ("<<<M494>>>" ++ check (runes_of_ascii "packet
+    asx { @calculatedFrom(
+""""  ) @tag( 255 )repeat
+// packet A { u8 x, }
+// trailing space 
+int16 u8x
+,
+@tag(
+    //
+    007 )
+    @tag( 0
+    /// triple
+    ) @tag( 1 string u
+    @lengthOf( T ),
+// `tick` ""quote"" 'q'
+//x
+} // " ++ [128512]%N ++ runes_of_ascii " emoji")).
+Eval vm_compute in ("<<<M522>>>" ++ check (runes_of_ascii "packet
+    asx { @calculatedFrom(
+""""  ) @tag( 255 )repeat
+// packet A { u8 x, }
+// trailing space 
+int16 u8x
+,
+@tag(
+    //
+    007 )
+    @tag( 0
+    /// triple
+    ) @tag( 1) u
+    @lengthOf( T ),
+// `tick` ""quote"" 'q'
+//x
+} } // " ++ [128512]%N ++ runes_of_ascii " emoji")).
+Eval vm_compute in ("<<<M453>>>" ++ check (runes_of_ascii "packet
+    asx { @calculatedFrom(
+""""  ) @tag( 255 )repeat
+// packet A { u8 x, }
+// trailing space 
+int16 u8x
+,
+007
+    //
+    @tag( )
+    @tag( 0
+    /// triple
+    ) @tag( 1) u
+    @lengthOf( T ),
+// `tick` ""quote"" 'q'
+//x
+} // " ++ [128512]%N ++ runes_of_ascii " emoji")).
+Eval vm_compute in ("<<<M491>>>" ++ check (runes_of_ascii "packet
+    asx { @calculatedFrom(
+""""  ) @tag( 255 )repeat
+// packet A { u8 x, }
+// trailing space 
+int16 u8x
+,
+@tag(
+    //
+    007 )
+    @tag( 0
+    /// triple
+    ) @tag( 1 u
+    @lengthOf( T ),
+// `tick` ""quote"" 'q'
+//x
+} // " ++ [128512]%N ++ runes_of_ascii " emoji")).
+Eval vm_compute in ("<<<M529>>>" ++ check (runes_of_ascii "packet
+    asx { @calculatedFrom(
+""""  ) @tag( 255 )repeat
+// packet A { u8 x, }
+// trailing space 
+int16 u8x
+,
+@tag(
+    //
+    007 )
+    @tag( 0
+    /// triple
+    ) @tag( 1) u
+    @lengthOf( T ),
+// `tick` ""quote"" 'q'
+//x
+}")).
+Eval vm_compute in ("<<<M325>>>" ++ check (runes_of_ascii "MetaData lengthOf {chars asx
+,
+T
+// trailing space 
+// @lengthOf(
+Header
+`100% of %d`	,
+int32 x_y_z `two words`
+, zchar[	0123456789 ] Header
+    ``,len x_y_z`
+` , // c
+}// " ++ [27880; 37322]%N ++ runes_of_ascii "
+packet//
+BodyLength
+    { }
+")).
+Eval vm_compute in ("<<<M1334>>>" ++ check (runes_of_ascii "root packet Frame {
     u8 K,
+    Logon first,
     match K as Body {
         1 : Logon,
         2 : Logout,
     },
-    Tail,
 }
-
+packet Logon {
+    string user,
+}
 packet Logout {
     u16 reason,
 }
-
-packet Tail {
-    u32 crc,
-}")).
-Eval vm_compute in ("<<<M357>>>" ++ check (runes_of_ascii "MetaData x_y_z
-{
-lengthOf // packet A { u8 x, }
-rootA , MetaDataX// " ++ [128512]%N ++ runes_of_ascii " emoji
-_x , char[ 4294967296 ] stringy , char[
-//
-// c
-007
-] u128
-, tag u8x `line1
-line2` ,  uint8 u128 , }
 ")).
-Eval vm_compute in ("<<<M1877>>>" ++ check (runes_of_ascii "packet A {
+Eval vm_compute in ("<<<M548>>>" ++ check (runes_of_ascii "MetaData MetaData u
+    { } MetaData o
+{ float uint8x
+`100% of %d` ,repeatCount u8x, string_ leftPad
+, i32
+    Foo , int64 x `two words` , calculatedFrom
+stringy `a\` ,
+}
+")).
+Eval vm_compute in ("<<<M147>>>" ++ check (runes_of_ascii "packet
+Pad { /// triple
+trueish {  uint16	Packet @lengthOf(i8i8 ) `" ++ [28040; 24687; 31867; 22411]%N ++ runes_of_ascii "`
+,Logon
+    , repeat// `tick` ""quote"" 'q'
+zchar[ 255  ]
+f32a	`say ""hi""` ,	}
+,
+    //	t
+    }
+")).
+Eval vm_compute in ("<<<M613>>>" ++ check (runes_of_ascii "MetaData u
+    { } MetaData o
+{ float uint8x
+`100% of %d` ,repeatCount u8x string_ , leftPad
+, i32
+    Foo , int64 x `two words` , calculatedFrom
+stringy `a\` ,
+}
+")).
+Eval vm_compute in ("<<<M638>>>" ++ check (runes_of_ascii "MetaData u
+    { } MetaData o
+{ float uint8x
+`100% of %d` ,repeatCount u8x, string_ leftPad
+, i32
+    , Foo int64 x `two words` , calculatedFrom
+stringy `a\` ,
+}
+")).
+Eval vm_compute in ("<<<M358>>>" ++ check (runes_of_ascii "  packet
+// 50% %s
+// @lengthOf(
+len{ @rightPad ( ' '
+)uint8x asx `// not a comment` , @calculatedFrom( ""// no comment""
+) // @lengthOf(
+repeat f64 uint8x`a\` , }")).
+Eval vm_compute in ("<<<M1975>>>" ++ check (runes_of_ascii "packet A {
+    Inner {
+        match k as n {
+            [
+                1, 22, 007, 4, 5,
+                66, 7, 8
+            ] : B,
+        },
+    },
+}")).
+Eval vm_compute in ("<<<M1496>>>" ++ check (runes_of_ascii "packet A {
     match k as n {
         [
-            1, ""bb"", 007, ""d"", 5,
-            ""f"", 7, ""h"", 9, ""j"",
-            11, ""l""
+            ""a"", ""bb"", ""c c"", ""d"", ""e"",
+            ""f"", ""g"", ""h"", ""i""
         ] : B,
         2 : C,
     },
 }")).
-Eval vm_compute in ("<<<M406>>>" ++ check (runes_of_ascii "packet uint8x
-{ match match pack
-    as msg_type	{
-    0123456789 :	float
-}
+Eval vm_compute in ("<<<M1625>>>" ++ check (runes_of_ascii "options  {} options 
+{ MetaDataX
+=
+
+    char
+	; }
+MetaData
+	Pad
+	{
+
+// c
+i8
+metadata
+
+    , string
+stringy
 ,
-} packet //	t
-a1
-    { } options {packetx
-    = '\x00'	; u128= ""a	b""  ; }
+
+int8	As
+`{ , }`,
+	}
 ")).
-Eval vm_compute in ("<<<M426>>>" ++ check (runes_of_ascii "packet uint8x
-{ match pack
-    as msg_type	{ {
-    0123456789 :	float
-}
-,
-} packet //	t
-a1
-    { } options {packetx
-    = '\x00'	; u128= ""a	b""  ; }
-")).
-Eval vm_compute in ("<<<M1299>>>" ++ check (runes_of_ascii "packet A {
+Eval vm_compute in ("<<<M1307>>>" ++ check (runes_of_ascii "packet A {
     u8 a,
 }
 packet B {
@@ -1004,239 +1154,177 @@ packet B {
 root packet P {
     u8 K,
     match K as M {
-        [1, 2] : A,
-        3 : B,
-        7 : A,
+        1 : A,
+        1 : B,
     },
 }
 ")).
-Eval vm_compute in ("<<<M517>>>" ++ check (runes_of_ascii "packet uint8x
-{ match pack
-    as msg_type	{
-    0123456789 :	float
+Eval vm_compute in ("<<<M1577>>>" ++ check (runes_of_ascii "MetaData metadata {
+    u64 charz `crlf
+    line`,
+    int64 options1,
 }
-,
-} packet //	t
-a1
-    { } options {packetx
-    = '\x00'	; u128""a	b"" =  ; }
-")).
-Eval vm_compute in ("<<<M666>>>" ++ check (runes_of_ascii "// @lengthOf(
-packet i8i8 { u128 u128 o , }
-options { MetaDataX = true;
-    BodyLength =""packet"" x_y_z= 007
-crc //x
-= ""abc"" ;
-    msg_type =
-i16 }")).
-Eval vm_compute in ("<<<M695>>>" ++ check (runes_of_ascii "// @lengthOf(
-packet i8i8 { u128 o , }
-options { MetaDataX = true;
-    BodyLe@xngth =""packet"" x_y_z= 007
-crc //x
-= ""abc"" ;
-    msg_type =
-i16 }")).
-Eval vm_compute in ("<<<M720>>>" ++ check (runes_of_ascii "// @lengthOf(
-packet i8i8 { u128 o , }
-options { MetaDataX = true;
-    BodyLength =""packet"" =x_y_z 007
-crc //x
-= ""abc"" ;
-    msg_type =
-i16 }")).
-Eval vm_compute in ("<<<M650>>>" ++ check (runes_of_ascii "// @lengthOf(
-packet i8i8 { u128 o , }
-options { MetaDataX = true;
-    BodyLength =""packet"" x_y_z= 007
-crc //x
-=  ;
-    msg_type =
-i16 }")).
-Eval vm_compute in ("<<<M1704>>>" ++ check (runes_of_ascii "packet
 
-A
-	{ u16 len
+options {
+    tag = ""CRC32"";
+    u8x = '\x00'
+}")).
+Eval vm_compute in ("<<<M1612>>>" ++ check (runes_of_ascii "options {
+    LittleEndian = true;
+}
 
-@lengthOf( body )`tab
-	x` 
-, u32
-    crc@calculatedFrom( ""CRC32""
+root packet P {
+    u16 a,
+    u32 Sum @calculatedFrom(""CR\
+        C32""),
+}")).
+Eval vm_compute in ("<<<M1231>>>" ++ check (runes_of_ascii "options { } options { MetaDataX = char ; } MetaData Pad { i8 metadata // c
+, string stringy , int8 As `{ , }` , }")).
+Eval vm_compute in ("<<<M1654>>>" ++ check (runes_of_ascii "
+packet
+	A
+{ match
+	k
+as
+n 
+{ [
+	""a""  ,""bb"" ,
 
-    ) `tab
-	x`
+007,
+
+""d"" , ""e"",	66
 
 ,
-	string body
+	""g""
 
-    , }
+    ,""h""  ]
+	:	B 2
+:C	} ,	}
+
 ")).
-Eval vm_compute in ("<<<M1682>>>" ++ check (runes_of_ascii "packet A {
-    match k as n {
-        [
-            1, 22, 007, 4, 5,
-            66, 7
-        ] : B,
-        2 : C,
-    },
-}")).
-Eval vm_compute in ("<<<M1924>>>" ++ check (runes_of_ascii "packet A {
-    Inner {
-        u8 x `x
-        `,
-        Deep {
-            u8 y `x
-            `,
-        },
-    },
-}")).
-Eval vm_compute in ("<<<M1172>>>" ++ check (runes_of_ascii "MetaData leftPad { chars MetaDataX , } packet repeatCount { char[ 255 ] uint8x `" ++ [233]%N ++ runes_of_ascii "`
-// c
-, } MetaData pack { As Foo , }")).
-Eval vm_compute in ("<<<M300>>>" ++ check (runes_of_ascii "packet
-Logon  { repeat u {zchar { zchar[ 007
-] a1
-`` ,  x_y_z@calculatedFrom(
-//
-// " ++ [128512]%N ++ runes_of_ascii " emoji
-""{,}""
-    ), }, } ,}
+Eval vm_compute in ("<<<M273>>>" ++ check (runes_of_ascii "MetaData
+float {
+repeatCount zchar,
+charz
+a1 , i64_
+    /// triple
+    string_	, float64 trueish,	}
 ")).
-Eval vm_compute in ("<<<M901>>>" ++ check (runes_of_ascii "packet A {
-  match k as n {
-    [""a"", ""bb"", 007, ""d"", ""e"", 66, ""g"", ""h"", 9, ""j"", ""k""] : B,
-    2 : C
-  },
-}")).
-Eval vm_compute in ("<<<M353>>>" ++ check (runes_of_ascii "options { _x
-    =
-    ""`tick`""	;matchKey=
-""it's""
-;	options1
-    = u16 ; stringy= true
-    // c
-    }
-")).
-Eval vm_compute in ("<<<M656>>>" ++ check (runes_of_ascii "// @lengthOf(
-packet i8i8 { u128 o , }
-options { MetaDataX = true;
-    BodyLength =""packet"" x_y_z")).
-Eval vm_compute in ("<<<M872>>>" ++ check (runes_of_ascii "packet A {
-  match k as n {
-    [""a"", 22, ""c c"", 4, ""e"", 66, ""g"", 8, ""i""] : B
-    2 : C
-  },
-}")).
-Eval vm_compute in ("<<<M603>>>" ++ check (runes_of_ascii "
-packet
-    asx {match u128 as lengthOf
+Eval vm_compute in ("<<<M1179>>>" ++ check (runes_of_ascii "// top
+options
+    // c0
 {
-//	t
-// `tick` ""quote"" 'q'
-255 : x x ,
-    } ,	}")).
-Eval vm_compute in ("<<<M564>>>" ++ check (runes_of_ascii "
-packet
-    asx match{ u128 as lengthOf
-{
-//	t
-// `tick` ""quote"" 'q'
-255 : x ,
-    } ,	}")).
-Eval vm_compute in ("<<<M879>>>" ++ check (runes_of_ascii "packet A {
-  match k as n {
-    [1, 22, 007, 4, 5, 66, 7, 8, 9, 10] : B
-    2 : C
-  },
-}")).
-Eval vm_compute in ("<<<M390>>>" ++ check (runes_of_ascii "root packet SimpleMessage {
-	uint16 MsgType `" ++ [28040; 24687; 31867; 22411]%N ++ runes_of_ascii "`,
-	string JsonBody `Json" ++ [23383; 31526; 20018; 28040; 24687; 20307]%N ++ runes_of_ascii "`,
-}")).
-Eval vm_compute in ("<<<M1292>>>" ++ check (runes_of_ascii "
-
-  root
-    packet
-
-P
-
-    {
-	u8
-	s_u8,  repeat  u8 r_u8  , u16
-    b_len, }
-
+    // c1
+A
+    // c2
+=
+    // c3
+""// no comment""
+    // c4
+}
+    // c5
 ")).
-Eval vm_compute in ("<<<M611>>>" ++ check (runes_of_ascii "
-packet
-    asx {match u128 as lengthOf
-{
-//	t
-// `tick` ""quote"" 'q'
-255 : x")).
-Eval vm_compute in ("<<<M890>>>" ++ check (runes_of_ascii "packet A { Inner { match k as n { [1,22,007,4,5,66,7,8,9,10] : B, }, }, }")).
-Eval vm_compute in ("<<<M795>>>" ++ check (runes_of_ascii "packet A {
+Eval vm_compute in ("<<<M635>>>" ++ check (runes_of_ascii "MetaData u
+    { } MetaData o
+{ float uint8x
+`100% of %d` ,repeatCount u8x, string_ leftPad
+,")).
+Eval vm_compute in ("<<<M1974>>>" ++ check (runes_of_ascii "packet options1 {
+    repeat char[] A `" ++ [233]%N ++ runes_of_ascii "`,
+    float rootA,
+    Foo,
+}
+
+root packet Z9_ {
+}")).
+Eval vm_compute in ("<<<M827>>>" ++ check (runes_of_ascii "packet A {
   match k as n {
-    [1, 22, ""c c""] : B,
+    [""a"", ""bb"", ""c c"", ""d"", ""e"", ""f""] : B
     2 : C
   },
 }")).
-Eval vm_compute in ("<<<M246>>>" ++ check (runes_of_ascii "MetaData x {x Packet
-,i32 lengthOf
-, // `tick` ""quote"" 'q'
+Eval vm_compute in ("<<<M1608>>>" ++ check (runes_of_ascii "packet  Inner 
+{ 
+u8  a
+    ,	} root
+packet
+    P 
+{Inner
+    ref_obj
+, u8 
+x ,
 }
 ")).
-Eval vm_compute in ("<<<M1791>>>" ++ check (runes_of_ascii "packet i64_ {
-    @tag(0123456789)
-    repeat u16 stringy,
+Eval vm_compute in ("<<<M988>>>" ++ check (runes_of_ascii "packet A {
+    u32 crc @calculatedFrom(""\
+""),
+    @calculatedFrom(""\
+"") u8 y,
 }")).
-Eval vm_compute in ("<<<M1070>>>" ++ check (runes_of_ascii "packet A { match k as n { 1 : B // a // b 2 : C }, }")).
-Eval vm_compute in ("<<<M1212>>>" ++ check (runes_of_ascii "packet body { i32 f32a `{ , }` ,
-// c
-} options { }")).
-Eval vm_compute in ("<<<M1286>>>" ++ check (runes_of_ascii "
-
-  root
-    packet P{ 
-string
-	s
-
-    , }
+Eval vm_compute in ("<<<M369>>>" ++ check (runes_of_ascii "packet
+_x { }
+    root
+    packet leftPad { }
+options { Pad
+=	string ; }
 ")).
-Eval vm_compute in ("<<<M933>>>" ++ check (runes_of_ascii "MetaData M {
-    u8 x `
-`,
-    T t `
-`,
+Eval vm_compute in ("<<<M967>>>" ++ check (runes_of_ascii "MetaData M {
+    u8 x `100% of %s %d %v`,
+    T t `100% of %s %d %v`,
 }")).
-Eval vm_compute in ("<<<M1409>>>" ++ check (runes_of_ascii "
-
-  packet 
-A
-    {
-} 
-    // c" ++ [8192]%N ++ runes_of_ascii "
+Eval vm_compute in ("<<<M922>>>" ++ check (runes_of_ascii "packet A {
+    B b `a
+b`,
+    B `a
+b`,
+    repeat B bs `a
+b`,
+}")).
+Eval vm_compute in ("<<<M823>>>" ++ check (runes_of_ascii "packet A { Inner { match k as n { [1,22,007,4,5] : B, }, }, }")).
+Eval vm_compute in ("<<<M970>>>" ++ check (runes_of_ascii "packet A {
+    B b `%`,
+    B `%`,
+    repeat B bs `%`,
+}")).
+Eval vm_compute in ("<<<M775>>>" ++ check (runes_of_ascii "packet A { Inner { match k as n { [1] : B, }, }, }")).
+Eval vm_compute in ("<<<M1162>>>" ++ check (runes_of_ascii "// top
+packet // c0
+x // c1
+{ // c2
+} // c3
 ")).
-Eval vm_compute in ("<<<M179>>>" ++ check (runes_of_ascii "// `tick` ""quote"" 'q'
+Eval vm_compute in ("<<<M1657>>>" ++ check (runes_of_ascii "  packet  len
+{ repeat
+
+    A
+    ,}
+")).
+Eval vm_compute in ("<<<M1181>>>" ++ check (runes_of_ascii "// c
+options { A = ""// no comment"" }")).
+Eval vm_compute in ("<<<M944>>>" ++ check (runes_of_ascii "root packet A {
+    u8 x `a
+
+b`,
+}")).
+Eval vm_compute in ("<<<M739>>>" ++ check ([65533; 8; 65533; 65533]%N ++ runes_of_ascii "_" ++ [18]%N ++ runes_of_ascii "%" ++ [65533]%N ++ runes_of_ascii "." ++ [65533; 65533; 65533; 6]%N ++ runes_of_ascii "AR" ++ [31; 65533]%N ++ runes_of_ascii "rNi" ++ [1450; 22]%N ++ runes_of_ascii "tL9" ++ [0; 65533]%N ++ runes_of_ascii "A" ++ [65533]%N ++ runes_of_ascii "/")).
+Eval vm_compute in ("<<<M1096>>>" ++ check (runes_of_ascii "MetaData M {
+}// c
 options {}")).
-Eval vm_compute in ("<<<M993>>>" ++ check (runes_of_ascii "packet A {
- u8 x `d" ++ [133]%N ++ runes_of_ascii "`, // c" ++ [133]%N ++ runes_of_ascii "
-}")).
-Eval vm_compute in ("<<<M655>>>" ++ check (runes_of_ascii "// @lengthOf(
-packet i8i8 {")).
-Eval vm_compute in ("<<<M1468>>>" ++ check (runes_of_ascii "
-packet
-A{
-} // c" ++ [8203]%N ++ runes_of_ascii "
+Eval vm_compute in ("<<<M1824>>>" ++ check (runes_of_ascii "// c" ++ [160]%N ++ runes_of_ascii "
+	packet
+	A 
+{  }
 ")).
-Eval vm_compute in ("<<<M1110>>>" ++ check (runes_of_ascii "MetaData tag {
+Eval vm_compute in ("<<<M1123>>>" ++ check (runes_of_ascii "
 // c
+MetaData tag { }")).
+Eval vm_compute in ("<<<M1001>>>" ++ check (runes_of_ascii "// c" ++ [12288]%N ++ runes_of_ascii "
+packet A {
 }")).
-Eval vm_compute in ("<<<M744>>>" ++ check (runes_of_ascii "`" ++ [28040; 24687; 31867; 22411]%N ++ runes_of_ascii "` '0' options")).
-Eval vm_compute in ("<<<M1056>>>" ++ check (runes_of_ascii "packet A {
-}
-// c" ++ [6158]%N)).
-Eval vm_compute in ("<<<M1226>>>" ++ check (runes_of_ascii "packet // c
-x { }")).
-Eval vm_compute in ("<<<M1528>>>" ++ check (runes_of_ascii "// @lengthOf(")).
-Eval vm_compute in ("<<<M1010>>>" ++ check (runes_of_ascii "// c" ++ [8232]%N)).
-Eval vm_compute in ("<<<M735>>>" ++ check ([0]%N)).
+Eval vm_compute in ("<<<M1102>>>" ++ check (runes_of_ascii "packet A { // a
+ }")).
+Eval vm_compute in ("<<<M1851>>>" ++ check (runes_of_ascii "packet Packet {
+}")).
+Eval vm_compute in ("<<<M1690>>>" ++ check (runes_of_ascii "/// triple")).
+Eval vm_compute in ("<<<M159>>>" ++ check (runes_of_ascii "  
+")).
